@@ -14,6 +14,7 @@ import (
 // C02: realtime parse transcribes every wire field faithfully, in the configured zone.
 
 type CaseRT struct {
+	vt.Env
 	Zone string
 	Msg  *rgen.Msg
 	// Primers are parsed (each with its own fresh options) before every parse of Msg; their results are discarded. The
@@ -212,6 +213,7 @@ func propC02(t *rapid.T) {
 	}
 	m, info := rgen.GenMsg(t, o)
 	c := CaseRT{Zone: zone, Msg: m, Primers: genPrimers(t, zone, m)}
+	c.Env = genEnv(t)
 	classes, nt := rtClasses(c, info)
 	if len(c.Primers) > 0 {
 		classes = append(classes, "after-earlier-calls")
